@@ -1,5 +1,5 @@
 CONSTANTS
-  Ctx <- QuickCtx
+  Ctx <- WeakCtx
   AddIds <- QuickIds
   BeginIds <- QuickBegin
   MaxList = 2
@@ -14,6 +14,7 @@ CONSTANTS
   Weak_NoReloadOnRestart = FALSE
   Weak_PendingSkipsExpiry = FALSE
   Weak_LateAddUnchecked = TRUE
+  Weak_ExpiryUsesStartupParams = FALSE
   Weak_BufferUsesCurrentValSet = FALSE
 INIT Init
 NEXT Next
